@@ -10,6 +10,10 @@ EVIDENCE = os.path.join(VERIF, "evidence")
 TLA_CP = "/opt/veriftools/tla/tla2tools.jar:/opt/veriftools/tla/CommunityModules-deps.jar"
 
 
+import itertools
+_COUNTER = itertools.count()
+
+
 class ToolError(Exception):
     pass
 
@@ -63,8 +67,9 @@ def build_harness():
 def tlc(ctx, cfg, module, workers=12, timeout=900, simulate=None, depth=None, env=None, count=True, extra_args=None, jvm=None, allow_fail=False):
     """Run TLC; returns dict(out=path, states=distinct, generated=..., ok=bool, text_tail=str)."""
     name = os.path.splitext(os.path.basename(cfg))[0]
-    meta = os.path.join(ctx.scratch, f"tlc-{name}-{len(ctx.tlc_runs)}")
-    out = os.path.join(ctx.scratch, f"tlc-{name}-{len(ctx.tlc_runs)}.out")
+    uid = next(_COUNTER)           # unique also when several TLC processes are started from threads
+    meta = os.path.join(ctx.scratch, f"tlc-{name}-{uid}")
+    out = os.path.join(ctx.scratch, f"tlc-{name}-{uid}.out")
     cmd = ["java", "-Xss1g", "-XX:+UseParallelGC"]
     if jvm:
         cmd += jvm
@@ -154,7 +159,7 @@ def hv(ctx, command, **kw):
     return s
 
 
-def tlc_trace(ctx, cfg, module, trace_file, timeout=900):
+def tlc_trace(ctx, cfg, module, trace_file, timeout=1800):
     """impl -> spec: TLC validates recorded events/bytes. Returns (accepted, index of first rejected record or None)."""
     r = tlc(ctx, cfg, module, workers=1, timeout=timeout, env={"TRACE": trace_file,
             "JAVA_TOOL_OPTIONS": "-Xss1g -Dtlc2.tool.queue.IStateQueue=StateDeque"}, count=True, allow_fail=True)
@@ -177,27 +182,36 @@ def tlc_trace(ctx, cfg, module, trace_file, timeout=900):
 
 
 def trace_core(ctx, prop, runs):
-    """impl -> spec: record random runs from the real crate, let TLC validate them against TraceCore."""
+    """impl -> spec: record random runs from the real crate, let TLC validate them against TraceCore
+    (several single-worker TLC processes in parallel, one per trace chunk)."""
+    from concurrent.futures import ThreadPoolExecutor
+    chunks = 1 if runs <= 12 else min(12, runs // 12)
     tf = os.path.join(ctx.scratch, f"trace-{prop}.ndjson")
-    s = hv(ctx, "record", trace=tf, runs=runs, large_every=(10 if ctx.quick else 15))
-    ok, line_no = tlc_trace(ctx, f"trace/TraceCore{prop}.cfg", "trace/TraceCore.tla", tf)
+    s = hv(ctx, "record", trace=tf, runs=runs, chunks=chunks, large_every=(10 if ctx.quick else 15))
+    files = [tf] if chunks == 1 else [f"{tf}.{c}" for c in range(chunks)]
     idx = s["extra"]["runs"]
-    if ok:
-        ctx.traces += len(idx)
-        ctx.extra["trace_events_validated"] = ctx.extra.get("trace_events_validated", 0) + s.get("evaluations", 0)
-        return
-    # which run does the first unmatched line belong to
-    run = next((r for r in idx if r["first_line"] <= (line_no or 0) - 0 <= r["last_line"] + 1), idx[-1])
-    ctx.traces += sum(1 for r in idx if r["last_line"] < (line_no or 0))
-    lines = open(tf).read().splitlines()
-    ev = json.loads(lines[line_no - 1]) if line_no and line_no <= len(lines) else {}
-    if "proj" in ev:
-        ev["proj"] = "<projection omitted>"
-    os.makedirs(REPLAYS, exist_ok=True)
-    rp = os.path.join(REPLAYS, f"{prop}-trace-seed{ctx.seed}-run{run['run']}.json")
-    json.dump({"cmd": "trace-core", "property": prop, "seed": ctx.seed, "run": run["run"], "line": line_no, "event": ev,
-               "diffs": [f"recorded event at trace line {line_no} is not a step of the specification (TraceCore, focus {prop})"]}, open(rp, "w"), indent=1)
-    ctx.violations.append(dict(property=prop, what=f"trace validation: event {ev.get('e')} of run {run['run']} rejected by the specification", replay=rp))
+
+    def one(c):
+        return tlc_trace(ctx, f"trace/TraceCore{prop}.cfg", "trace/TraceCore.tla", files[c], timeout=2400)
+    with ThreadPoolExecutor(max_workers=min(12, chunks)) as ex:
+        results = list(ex.map(one, range(chunks)))
+    for c, (ok, line_no) in enumerate(results):
+        mine = [r for r in idx if r.get("chunk", 0) == c]
+        if ok:
+            ctx.traces += len(mine)
+            ctx.extra["trace_events_validated"] = ctx.extra.get("trace_events_validated", 0) + sum(r["events"] for r in mine)
+            continue
+        run = next((r for r in mine if r["first_line"] <= (line_no or 0) <= r["last_line"] + 1), mine[-1])
+        ctx.traces += sum(1 for r in mine if r["last_line"] < (line_no or 0))
+        lines = open(files[c]).read().splitlines()
+        ev = json.loads(lines[line_no - 1]) if line_no and line_no <= len(lines) else {}
+        if "proj" in ev:
+            ev["proj"] = "<projection omitted>"
+        os.makedirs(REPLAYS, exist_ok=True)
+        rp = os.path.join(REPLAYS, f"{prop}-trace-seed{ctx.seed}-run{run['run']}.json")
+        json.dump({"cmd": "trace-core", "property": prop, "seed": ctx.seed, "run": run["run"], "line": line_no, "event": ev,
+                   "diffs": [f"recorded event at trace line {line_no} is not a step of the specification (TraceCore, focus {prop})"]}, open(rp, "w"), indent=1)
+        ctx.violations.append(dict(property=prop, what=f"trace validation: event {ev.get('e')} of run {run['run']} rejected by the specification", replay=rp))
 
 
 def algo_drift(ctx, runs):
